@@ -525,6 +525,82 @@ static std::string runF(TS &ts)
   return out.str();
 }
 
+// L <cap> <op>... : lifetime of the views handed out by getWrittenView().
+//   w:<hex> wn:<n> rs:<n> rf:<hex>   as in F         view   take getWrittenView() and KEEP it
+//   kill    destroy the FixedBufferWriter            reseat:<n>  *writer.buffer = vector(n, 0x77); cursor = 0
+//   chk     read every byte of every view held, directly and through a BufferReader
+// after the last op the writer is destroyed (if still alive) and every view is read once more.
+static std::string runL(TS &ts)
+{
+  size_t cap = std::stoull(ts.next());
+  std::unique_ptr<FixedBufferWriter> fw(new FixedBufferWriter(cap));
+  if (cap) std::memset(fw->buffer->begin(), BG, cap);
+  std::vector<std::shared_ptr<FixedArray<uint8_t>::View>> views;
+  static uint8_t dummy = 0;
+  auto chk = [&]() -> std::string {
+    if (views.empty()) return "none";
+    std::string s;
+    for (size_t k = 0; k < views.size(); ++k) {
+      auto &v = views[k];
+      std::string direct = hex(v->begin(), v->size());          // every byte, through the view itself
+      std::shared_ptr<AbstractArray<uint8_t>> ab = v;
+      BufferReader r(ab);
+      std::vector<uint8_t> tmp(v->size() + 1);
+      r.read(tmp.data(), v->size());                            // ... and through a BufferReader
+      bool same = hex(tmp.data(), v->size()) == direct && r.end();
+      s += (k ? "," : "") + direct + (same ? "" : "!reader");
+    }
+    return s;
+  };
+  std::ostringstream out;
+  bool first = true;
+  while (ts.more()) {
+    auto f = split(ts.next(), ':');
+    std::ostringstream o;
+    try {
+      if (f[0] == "chk") o << "chk=" << chk();
+      else if (!fw) o << "dead";
+      else if (f[0] == "w") {
+        auto d = unhex(f[1]);
+        fw->write(d.empty() ? &dummy : d.data(), d.size());
+        o << "ok";
+      } else if (f[0] == "wn") {
+        fw->write(nullptr, std::stoull(f[1]));
+        o << "ok";
+      } else if (f[0] == "rs" || f[0] == "rf") {
+        std::vector<uint8_t> d;
+        size_t size;
+        if (f[0] == "rf") { d = unhex(f[1]); size = d.size(); }
+        else size = std::stoull(f[1]);
+        uint8_t *p = (uint8_t *)fw->reserve(size);
+        o << "ptr=" << (size_t)(p - fw->buffer->begin());
+        if (!d.empty()) std::memcpy(p, d.data(), d.size());
+      } else if (f[0] == "view") {
+        views.push_back(fw->getWrittenView());
+        o << "view=" << views.back()->size();
+      } else if (f[0] == "kill") {
+        fw.reset();
+        o << "done";
+      } else if (f[0] == "reseat") {
+        std::vector<uint8_t> nv(std::stoull(f[1]), 0x77);
+        *fw->buffer = nv;
+        fw->cursor = 0;
+        o << "done";
+      } else o << "badop";
+    } catch (const std::exception &) {
+      o.str("");
+      o << "throw";
+    }
+    if (fw) o << "|" << fw->cursor << "|" << fw->available() << "|" << fw->capacity();
+    else o << "|-";
+    out << (first ? "" : " ; ") << o.str();
+    first = false;
+  }
+  fw.reset();
+  out << (first ? "" : " ; ") << "final=" << chk();
+  return out.str();
+}
+
 static std::string runW(TS &ts)
 {
   BufferWriter bw;
@@ -568,6 +644,7 @@ int main()
       else if (kind == "R") res = runR(ts);
       else if (kind == "F") res = runF(ts);
       else if (kind == "W") res = runW(ts);
+      else if (kind == "L") res = runL(ts);
     } catch (const std::logic_error &e) {
       res = std::string("harness-error:") + e.what();
     }
